@@ -118,6 +118,7 @@ struct Conn {
 	bool server_gone = false;
 	int fc = 0; uint64_t fc_changes = 0;
 	bool fc_changing = false;
+	bool server_dropping = false;       // the application has asked the library to disconnect this connection
 	int64_t defer_since_poll = -1;      // server loop iteration at which "events unread, descriptor not readable, notifications owed" was first seen (-1: not in that state)     // the server is inside qb_ipcs_request_rate_limit(): either level may be in force
 	unsigned auth_uid = 0, auth_gid = 0, auth_mode = 0600;
 	std::string dir;                        // /dev/shm/qb-...-XXXXXX
@@ -455,6 +456,7 @@ static int32_t cb_msg(qb_ipcs_connection_t *sc, void *data, size_t size)
 	}
 	if ((m.flags & DF_DISCONNECT_SELF) && !c->destroyed && c->closed_calls == 0) {
 		count(p_disc_in_msg);
+		c->server_dropping = true;
 		qb_ipcs_disconnect(sc);
 	}
 	if (m.flags & DF_RET_NEG) { count(p_backoff); ret = -1; }
@@ -536,6 +538,7 @@ static void do_server_op(const Op &op, Conn *ctx)
 		if (op.a[4] >= 0 && (size_t)op.a[4] < G.conns.size()) t = &G.conns[(size_t)op.a[4]];
 		if (!t || t->destroyed || !t->created || t->closed_calls > 0 || t->disc_in_created) break;     // legal: a connection the application knows as open
 		if (t->in_created_cb) t->disc_in_created = true;
+		t->server_dropping = true;
 		arm_teardown_kill(op.a[5]);
 		qb_ipcs_disconnect(t->sc);
 		break; }
@@ -698,7 +701,7 @@ static void client_note_result(ClientSt &k, ssize_t r)
 {
 	// every client call is made with valid arguments on a connection the client believes to be up: "invalid argument" is
 	// never the explanation for a refusal (refusals are try-again, too-large, timed-out or disconnected)
-	if (r == -EINVAL && !k.saw_disconnect && !G.server_dead && k.conn && !k.conn->server_gone)
+	if (r == -EINVAL && !k.saw_disconnect && !G.server_dead && !G.svc_destroyed && k.conn && !k.conn->server_gone && !k.conn->server_dropping)
 		VIOL(which == 3 || which == 4 ? which : 2, "call-refused-as-invalid", "qb_ipcc_send", "client %d: a call with valid arguments on an established connection returned -EINVAL", k.idx);
 	if (is_disc_err(r)) {
 		if (!k.saw_disconnect) { k.saw_disconnect = true; k.disconnect_seen_at = now_ns(); }
@@ -1654,6 +1657,19 @@ static void run(const char *prop, const RunSpec &spec)
 	g_access_hook = NULL;
 	bool torn = failed();
 	sched_end();
+	{
+		// A run that ended at the step cap after tens of thousands of steps during which the virtual clock never moved
+		// is a process spinning in a loop that costs no time (every wait, every refused send and every empty poll of the
+		// real code paths costs some). While the server spins like that it serves nobody: C02 (accepted messages are
+		// delivered), C03 and C06 ("keeps serving other clients") say it must.
+		Result &r = result();
+		if ((which == 2 || which == 3 || which == 6) && r.verdict == V_INCONCLUSIVE && !strcmp(r.site, "step-cap-no-time-progress")) {
+			r.verdict = V_VIOLATION;
+			snprintf(r.cls, sizeof r.cls, "busy-loop-without-progress");
+			snprintf(r.site, sizeof r.site, "qb_loop_run");
+			snprintf(r.detail, sizeof r.detail, "the run burnt its last 25000+ scheduling steps without virtual time advancing: a process is spinning in a loop that never waits, and whoever depends on it is not served");
+		}
+	}
 	if (!torn && which == 5) {
 		for (size_t i = 0; i < G.victims.size() && !failed(); i++) {
 			struct stat st; char buf[64]; memset(buf, 0, sizeof buf);
